@@ -265,7 +265,9 @@ def run_units(pid, kspecs, repo, workdir, tier):
                 r['playback'] = playback(unit, h, scratch, workdir)
                 if r['playback'] and r['playback'].get('attempted') and not r['playback'].get('reproduced') and not h.get('playback_optional'):
                     # counterexample does not reproduce on the natively compiled code: model/stub artefact => undecided
-                    r.update(status='undecided', reason='Kani counterexample did not reproduce natively (stub/model artefact suspected): ' + r['playback'].get('text', '')[-800:])
+                    why = ('Kani found a counterexample but the native playback could not be run (build error / time-out): neither confirmed nor refuted: '
+                           if r['playback'].get('no_verdict') else 'Kani counterexample did not reproduce natively (stub/model artefact suspected): ')
+                    r.update(status='undecided', reason=why + r['playback'].get('text', '')[-800:])
             results.append(r)
     return dict(harnesses=results, cmds=cmds, notes=notes, trusted=trusted, solver_s=solver_s)
 
@@ -305,8 +307,12 @@ def playback(unit, h, scratch, workdir):
         return dict(attempted=True, reproduced=False, text='no concrete playback test generated\n' + out[-1500:])
     env = dict(ENV, CARGO_PROFILE_TEST_LTO='off', CARGO_PROFILE_DEV_LTO='off', CARGO_TARGET_DIR=TARGET + '-playback')
     pcmd = ['cargo', 'kani', 'playback', '-Z', 'concrete-playback', '-p', unit['package'], '--', 'kani_concrete_playback']
-    rc2, out2, wall2 = sh(pcmd, cwd=scratch, timeout=1800, env=env)
+    rc2, out2, wall2 = sh(pcmd, cwd=scratch, timeout=3600, env=env)
     reproduced = ('panicked at' in out2 or 'FAILED' in out2) and 'test result: FAILED' in out2
+    if not reproduced and 'test result: ok' not in out2:
+        # the native test never ran (build error, time-out): this says nothing about the counterexample
+        return dict(attempted=True, reproduced=False, no_verdict=True,
+                    text='native playback could not be run (build error or time-out), so the counterexample is neither confirmed nor refuted\n' + out2[-2500:])
     keep = '\n'.join(l for l in out2.splitlines() if re.match(r'^(test |thread |failures:|    \w|test result|\s+left:|\s+right:|---- )', l) or 'panicked' in l)
     txt = f"$ CARGO_TARGET_DIR={TARGET}-playback {' '.join(pcmd)}\n---- generated test (first) ----\n{gen[:2500]}\n---- native run ----\n{keep[-3000:]}"
     return dict(attempted=True, reproduced=reproduced, text=txt)
@@ -350,6 +356,13 @@ def setup(repo):
         if rc != 0:
             print(out[-3000:])
             ok = False
+    # warm the native build that concrete playback needs (third-party crates compiled once into the playback target dir), so that
+    # confirming a counterexample later is a matter of minutes; failure here is not fatal (playback then just takes longer)
+    env = dict(ENV, CARGO_PROFILE_TEST_LTO='off', CARGO_PROFILE_DEV_LTO='off', CARGO_TARGET_DIR=TARGET + '-playback', RUSTFLAGS='--cfg=kani')
+    for p in pk:
+        rc, out, wall = sh(['cargo', 'kani', 'playback', '-Z', 'concrete-playback', '-p', p, '--', 'kani_concrete_playback_no_such_test'], cwd=scratch, timeout=2400,
+                           env=dict(ENV, CARGO_PROFILE_TEST_LTO='off', CARGO_PROFILE_DEV_LTO='off', CARGO_TARGET_DIR=TARGET + '-playback'))
+        print(f'setup: playback warm-up {p}: rc={rc} {wall:.0f}s')
     shutil.rmtree(os.path.dirname(scratch), ignore_errors=True)
     print(f'setup done in {time.time()-t0:.0f}s')
     return 0 if (ok and ok_diff) else 1
